@@ -290,6 +290,29 @@ def shard(ctx):
                     if matches("error", code) is False:
                         ctx.violation("%s:illegal-arguments:got-%s" % (argv[0], code), "unusable option combination gives exit %s: %s" % (code, argv[1:]), {"kind": "argv", "argv": argv, "expected": "error"})
 
+        # ------------------------------------------------------------------ test command: one rule name declared twice with another rule between
+        if ctx.mine(1):
+            split = "rule tagged {\n    x == 1\n}\nrule sized {\n    y exists\n}\nrule tagged when zz exists {\n    x == 1\n}\n"
+            adjacent = "rule tagged {\n    x == 1\n}\nrule tagged when zz exists {\n    x == 1\n}\nrule sized {\n    y exists\n}\n"
+            for rname, rtxt in (("split", split), ("adjacent", adjacent)):
+                for exp_word, want in (("SKIP", 7), ("FAIL", 0), ("PASS", 7)):
+                    shutil.rmtree(sdir, ignore_errors=True)
+                    os.makedirs(os.path.join(sdir, "t", "tests"))
+                    open(os.path.join(sdir, "t", "rr.guard"), "w").write(rtxt)
+                    open(os.path.join(sdir, "t", "tests", "rr_tests.json"), "w").write(json.dumps([{"name": "c", "input": {"x": 2, "y": 1}, "expectations": {"rules": {"tagged": exp_word, "sized": "PASS"}}}]))
+                    for fmt in ("plain", "json", "junit"):
+                        argv = ["test", "-d", os.path.join(sdir, "t")] + ([] if fmt == "plain" else ["-o", fmt])
+                        code, out, err = core.run_cli(argv)
+                        ctx.res.cases += 1
+                        ctx.res.counts["test_double_definition_runs"] += 1
+                        if matches(want, code) is None:
+                            ctx.inconclusive("crash-exit-%s" % code)
+                        elif not matches(want, code):
+                            ctx.violation("test:double-definition:%s:%s:expected-%s-got-%s" % (rname, fmt, want, code),
+                                          "a rule name declared twice (%s) evaluates to [FAIL, SKIP]; expectation %s: exit %s, expected %s" % (rname, exp_word, code, want),
+                                          {"kind": "argv-files", "argv_tail": ["-d", "{T}"] + ([] if fmt == "plain" else ["-o", fmt]), "rules": rtxt, "expectation": exp_word, "expected": want})
+                        else:
+                            ctx.res.distinct.add(("test-double-definition", rname, exp_word, fmt, code))
         # ------------------------------------------------------------------ test command
         ntest = 60 if ctx.quick else 1500
         for t in range(ntest):
@@ -407,6 +430,12 @@ def replay(case, w):
             rp, dp = write_scenario(sdir, case["rules"], case["data"], case["exts"])
             argv, stdin = argv_for(case["mode"], rp, dp, case["rules"], case["data"], sdir)
             code, out, err = core.run_cli(argv, stdin=stdin.encode() if stdin is not None else None)
+            return bool(matches(case["expected"], code)), "exit %s expected %s" % (code, case["expected"])
+        if case["kind"] == "argv-files":
+            os.makedirs(os.path.join(sdir, "t", "tests"))
+            open(os.path.join(sdir, "t", "rr.guard"), "w").write(case["rules"])
+            open(os.path.join(sdir, "t", "tests", "rr_tests.json"), "w").write(json.dumps([{"name": "c", "input": {"x": 2, "y": 1}, "expectations": {"rules": {"tagged": case["expectation"], "sized": "PASS"}}}]))
+            code, out, err = core.run_cli(["test"] + [a.replace("{T}", os.path.join(sdir, "t")) for a in case["argv_tail"]])
             return bool(matches(case["expected"], code)), "exit %s expected %s" % (code, case["expected"])
         if case["kind"] == "argv":
             code, out, err = core.run_cli(case["argv"])
